@@ -376,7 +376,8 @@ class BlockCode(BlockToken):
 
     @staticmethod
     def start(line):
-        return line.replace('\t', '    ', 1).startswith('    ')
+        # an indented code block cannot begin with a blank line
+        return line.replace('\t', '    ', 1).startswith('    ') and line.strip() != ''
 
     @classmethod
     def read(cls, lines):
